@@ -276,6 +276,7 @@ func init() {
 		}
 
 		c10EveryRequestedKey(c)
+		c10ProveEveryNode(c)
 		// rpc-one-view
 		for _, v := range []string{"rpc/v8", "rpc/v9", "rpc/v10"} {
 			f := p.Func(v, "Handler", "StorageProof")
@@ -1067,4 +1068,42 @@ func samePkgScope(fn *ssa.Function, depth int) []*ssa.Function {
 		}
 	}
 	return scope
+}
+
+// c10ProveEveryNode: (prove-every-node) trie.Prove puts every node of the path into the proof set: the Put on the proof set
+// inside Prove's loop is guarded by nothing but error checks and loop control — in particular not by a look-up in the very set
+// (seeded change C10-N skips nodes "already proven": a leaf whose value equals the hash of an inner node, or a second
+// sub-trie with identical content, is then missing and the honest proof does not verify). (set-reset-complete) the ordered
+// set that carries proof nodes forgets everything when cleared: every field its methods write is reset by Clear (seeded change
+// C10-M adds a keys slice that Clear leaves alone and re-uses one set per request across contracts).
+func c10ProveEveryNode(c *Ctx) {
+	p := c.P
+	if f := p.Func("core/trie", "Trie", "Prove"); f != nil {
+		n := 0
+		for _, s := range sitesOf(f) {
+			if s.Recv == nil || !(s.Callee != nil && s.Callee.Name() == "Put" || s.Method != nil && s.Method.Name() == "Put") || !strings.Contains(s.Recv.Type().String(), "ProofNodeSet") {
+				continue
+			}
+			n++
+			var bad []string
+			for _, cj := range p.mustHoldAt(s.Instr) {
+				for _, a := range cj.list() {
+					if strings.Contains(a, ".Get(") || strings.Contains(a, ".Has(") || strings.Contains(a, ".Contains(") {
+						bad = append(bad, a)
+					}
+				}
+			}
+			c.check(len(bad) == 0, "prove-every-node", "Trie.Prove → proof.Put", p.Pos(s.Pos()), "every node of the path is put into the proof set", "Prove adds a node to the proof set only under "+strings.Join(uniq(bad), "; ")+": a node whose hash is already in the (shared) set is left out although this key's path needs it")
+		}
+		if n == 0 {
+			c.und("prove-every-node", "core/trie.Trie.Prove", p.Pos(fnPos(f)), "Put on the proof set not found")
+		}
+	} else {
+		c.und("prove-every-node", "core/trie.Trie.Prove", "", "anchor not found")
+	}
+	if t, ok := p.lookupType("utils", "OrderedSet").(*types.Named); ok {
+		c08ResetCompleteAs(c, t, "prove-every-node", "utils.OrderedSet")
+	} else {
+		c.und("prove-every-node", "utils.OrderedSet", "", "type not found")
+	}
 }
